@@ -182,6 +182,20 @@ def library_text(models_data, opts):
     return stages.render_impl(reg, job)
 
 
+def matches(pattern, name):
+    """does the relative file name match the pattern, component by component: `*` / `?` match any characters of one
+    component (a leading dot included), `**` matches any number of directories"""
+    import fnmatch
+
+    def go(ps, ns):
+        if not ps:
+            return not ns
+        if ps[0] == "**":
+            return any(go(ps[1:], ns[k:]) for k in range(len(ns))) if len(ps) > 1 else True
+        return bool(ns) and fnmatch.fnmatchcase(ns[0], ps[0]) and go(ps[1:], ns[1:])
+    return go(pattern.split("/"), name.split("/"))
+
+
 def split_samples(rng, samples):
     """ways of giving the same sample list to the CLI: returns (files dict, argv fragments, format)"""
     fmt = "json"
@@ -199,9 +213,12 @@ def split_samples(rng, samples):
         argv += ["-m", "Root", "first", "r0.json", "-m", "Root", "r1.json", "-m", "Root", "second", "r0.json"]
         return files, argv, fmt, style
     if style == "glob":
+        # names a pattern must match although a shell would hide them (leading dot), sub-directories under `**`
+        names = ["part%d.json", ".part%d.json", "sub/part%d.json", "sub/.cache/part%d.json", ".hid/part%d.json"]
+        deep = rng.random() < 0.5
         for i, p in enumerate(parts):
-            files["g/part%d.json" % i] = p
-        argv += ["-m", "Root", "g/part*.json"]
+            files["g/" + (rng.choice(names) if deep else rng.choice(names[:2])) % i] = p
+        argv += ["-m", "Root", "g/**/*.json" if deep else "g/*.json"]
     elif style == "single-objects" and samples:
         for i, s in enumerate(samples):
             files["o%d.json" % i] = s
@@ -252,7 +269,12 @@ def gen_opts(rng):
         o["datetime"] = True
         argv += ["--datetime"]
     if rng.random() < .3:
-        o["disable"] = rng.choice([["float"], ["IntString"], ["bool", "int"]])
+        o["disable"] = rng.choice([["float"], ["IntString"], ["bool", "int"], ["date"], ["IsoTimeString"], ["datetime", "int"],
+                                   ["IsoDateString", "float"], ["time", "date", "datetime"]])
+        if o["disable"][0] in ("date", "IsoTimeString", "datetime", "IsoDateString", "time") and rng.random() < .8:
+            o["datetime"] = True
+            if "--datetime" not in argv:
+                argv += ["--datetime"]
         argv += ["--disable-str-serializable-types"] + o["disable"]
     if rng.random() < .2:
         o["preamble"] = "# hello"
@@ -323,8 +345,11 @@ def falsify(ctx):
                 # files matched by one pattern come in the file system's order (unspecified by the property): read the
                 # order this directory yields and give the library the samples in that order
                 from pathlib import Path
-                order = [p_.name for p_ in Path(d, "g").glob("part*.json")]
-                samples = [x for name_ in order for x in files["g/" + name_]]
+                pattern = argv[argv.index("Root") + 1]
+                matching = sorted(n for n in files if matches(pattern, n))       # "every matching file", by our own rule
+                seen = [str(p_.relative_to(d)) for p_ in Path(d, "g").glob(pattern[2:])]
+                order = [n for n in seen if n in matching] + [n for n in matching if n not in seen]
+                samples = [x for name_ in order for x in files[name_]]
             try:
                 want = library_text({"Root": samples}, opts)
                 lib_err = None
